@@ -22,4 +22,4 @@ done
 (cd $W && git reset -q --hard)
 cd $V && PYTHONPATH=/repo:$V /venv/bin/python -c "
 from harness import core; import pkgutil, translate
-core.run_translators([m.name for m in pkgutil.iter_modules(translate.__path__) if m.name not in ('pyexpr','normalize')])" >/dev/null 2>&1
+core.run_translators([m.name for m in pkgutil.iter_modules(translate.__path__) if m.name not in ('pyexpr','normalize','renames')])" >/dev/null 2>&1
